@@ -10,7 +10,7 @@ pub fn prop() -> Prop {
     Prop {
         id: "C10",
         level: "model_checking",
-        rule: "all streams of <=3 (thorough <=4) values over a 47-text universe (numbers one unit in the last place apart; (objects with the same members in another order, which `=` calls equal; strings spelled like literals, keys that are prefixes of one another, the empty key, empty collections inside a collection; (incl. whole numbers >= 2^32 spelled with and without exponent / fraction, and two objects whose printed forms coincide under the \\u+5-hex-digit spelling of non-BMP characters) (incl. unequal nested objects that differ only in where a trailing member sits: {\"a\":{},\"b\":1} / {\"a\":{\"b\":1}}) with equal-by-value spellings (0 0.0 0e0, [0,\"x\"] [0.0,\"x\"], 1 1.0 1e0 10e-1, \"a\" \"\\u0061\", 1.5 15e-1, 100 1e2, [1,{\"a\":1}] [1.0,{\"a\":1e0}], {\"a\":1} {\"a\":1.0}) and near misses (\"1\", [1], [1.5], null, true), and <=5 (thorough <=7) over a 10-text core; the same through one and two selections (also two selections sharing a name) over all streams of <=4 (thorough <=6) records where the selected member is present, null or absent; growth families of 3..1000 distinct values each arriving in three spellings; non-trivial = the stream holds a duplicate under `=` in a different spelling, or an absent-versus-null pair; distinct by construction; rows whose selected values are computed (round, floor, ceil, abs, arithmetic that returns to the same value, parse of stringify, containers built around them: 14 selection sets) over all streams of 2..3 (thorough 4) values out of 16 numbers and near-numbers",
+        rule: "all streams of <=3 (thorough <=4) values over a 49-text universe (numbers one unit in the last place apart; (objects with the same members in another order, which `=` calls equal; strings spelled like literals, keys that are prefixes of one another, the empty key, empty collections inside a collection; (incl. whole numbers >= 2^32 spelled with and without exponent / fraction, and two objects whose printed forms coincide under the \\u+5-hex-digit spelling of non-BMP characters) (incl. unequal nested objects that differ only in where a trailing member sits: {\"a\":{},\"b\":1} / {\"a\":{\"b\":1}}) with equal-by-value spellings (0 0.0 0e0, [0,\"x\"] [0.0,\"x\"], 1 1.0 1e0 10e-1, \"a\" \"\\u0061\", 1.5 15e-1, 100 1e2, [1,{\"a\":1}] [1.0,{\"a\":1e0}], {\"a\":1} {\"a\":1.0}) and near misses (\"1\", [1], [1.5], null, true), and <=5 (thorough <=7) over a 10-text core; the same through one and two selections (also two selections sharing a name) over all streams of <=4 (thorough <=6) records where the selected member is present, null or absent; growth families of 3..1000 distinct values each arriving in three spellings; non-trivial = the stream holds a duplicate under `=` in a different spelling, or an absent-versus-null pair; distinct by construction; rows whose selected values are computed (round, floor, ceil, abs, arithmetic that returns to the same value, parse of stringify, containers built around them: 14 selection sets) over all streams of 2..3 (thorough 4) values out of 16 numbers and near-numbers",
         explanation: "the `=` table of the implementation is obtained exhaustively for the universe (one run per ordered pair) and checked against reference equality, symmetry and reflexivity; the output with --unique must be the output without it minus every row equal (under that table, selection by selection, absent only equal to absent) to an earlier row",
         assumptions: COMMON_ASSUMPTIONS.to_vec(),
         guards: vec!["computed-duplicate-removed", "command-line-respelled", "duplicate-in-other-spelling-removed", "near-miss-kept", "absent-vs-null-kept", "nested-duplicate-removed", "table-growth", "eq-table-complete"],
@@ -21,13 +21,16 @@ pub fn prop() -> Prop {
     }
 }
 
-const U: [&str; 47] = [
+const U: [&str; 49] = [
     "\"null\"", "\"true\"", "\"[1]\"", "{\"a\":1,\"ab\":2}", "{\"\":1}", "[[],{}]",
     "5000000000", "5e9", "9007199254740991", "9007199254740991.0", "{\"k\":\"\u{1f600}\"}", "{\"k\":\"\u{1f60}0\"}",
     "{\"a\":{},\"b\":1}", "{\"a\":{\"b\":1}}", "[{\"u\":{\"n\":\"x\"},\"id\":7}]", "[{\"u\":{\"n\":\"x\",\"id\":7}}]", "0", "0.0", "0e0", "[0,\"x\"]", "[0.0,\"x\"]", "1", "1.0", "1e0", "10e-1", "\"a\"", "\"\\u0061\"", "\"1\"", "1.5", "15e-1", "null", "[1,{\"a\":1}]", "[1.0,{\"a\":1e0}]", "[1]", "[1.5]", "{\"a\":1}",
     "{\"a\":1.0}", "true", "100", "1e2",
     // the same members in another order: `=` calls these equal
     "0.3", "0.30000000000000004", "[0.1,0.30000000000000004]",
+    // two different objects whose member hashes add up to the same 64-bit sum under the (order-independent) hash of
+    // the current tree - found by a sub-agent's collision search; they tell a set of values from a set of digests
+    "{\"a2556178\":1,\"b3874581\":1}", "{\"c206783\":1,\"d2709478\":1}",
     "{\"ab\":2,\"a\":1}", "{\"b\":1,\"a\":{}}", "[1,{\"x\":{\"p\":1,\"q\":2.0}}]", "[1,{\"x\":{\"q\":2,\"p\":1}}]",
 ];
 const CORE: [usize; 10] = [6, 7, 12, 13, 16, 17, 21, 22, 3, 40];
